@@ -63,9 +63,16 @@ def aux_status(fn_result):
     return {k: ("proved" if v else "unproved") for k, v in out.items()}
 
 
-def _loops_aligned(base_shape, cur_shape):
-    """Every loop of the current code is, by ordinal, the loop (same kind, same head) the sidecar specification was written for."""
-    return len(cur_shape) <= len(base_shape) and all(c == b for c, b in zip(cur_shape, base_shape))
+def _loops_aligned(base_shape, cur_shape, specs=()):
+    """Every loop of the current code is, by ordinal, the loop (same kind, same head) the sidecar specification was written for.
+    A `for` loop whose specification NAMES the sequence it scans (`over`) stays aligned when only its iterable expression
+    changed (same target): the obligation `loopK.over` then decides whether the new iterable is still that sequence."""
+    def same(k, c, b):
+        if c == b:
+            return True
+        sp = specs[k] if k < len(specs) and specs[k] else {}
+        return bool(sp.get("over")) and c.startswith("For ") and b.startswith("For ") and c.split(" in ", 1)[0] == b.split(" in ", 1)[0]
+    return len(cur_shape) <= len(base_shape) and all(same(k, c, b) for k, (c, b) in enumerate(zip(cur_shape, base_shape)))
 
 
 def main(argv=None):
@@ -125,7 +132,7 @@ def main(argv=None):
             # undecided, never a violation by itself: a construct outside the engine's subset / a hard timeout falls back to the bounded stand-in
             degraded.append({"function": key, "reason": f"{r['status']}: {r.get('detail', '')[:200]} - bounded stand-in only"})
             continue
-        if base.get("shape") is not None and r.get("shape") is not None and not _loops_aligned(base["shape"], r["shape"]):
+        if base.get("shape") is not None and r.get("shape") is not None and not _loops_aligned(base["shape"], r["shape"], proj.contracts.get(key, {}).get("loops", ())):
             # the loop statements of the function are not the ones the sidecar loop specifications (keyed by loop ordinal)
             # were written for - a comprehension became a loop, a loop was split, merged or re-headed.  The contract's loop
             # anchors no longer match the code, so whatever fails to prove now is UNDECIDED, not refuted: the bounded stand-in
